@@ -62,7 +62,7 @@ const prelude = `
 var effects = []string{
 	"(set 'a (nx))",
 	"(set! b (nx))",
-	"(defun f () (nx))",
+	"(defun f () (let ([q (nx)]) (if (nil? q) 0 (progn q q))))", // the body re-enters the evaluator from Go (let, if, progn): a context left on the function's lexical environment would show in every later call
 	"(assoc! m 'k (nx))",
 	"(append! v (nx))",
 	"(export 'a)",
